@@ -656,7 +656,7 @@ def run_irc_case(case):
         again = h['parsemsg'](line) if enc == 'utf-8' else h['parsemsg'](line, encoding=enc)
         # what the receiving component hands to the application is the direct parse of the line (numeric replies carry their number first)
         want_ev = None
-        if pcmd and not any(ch in pcmd for ch in '\x00'):
+        if pcmd and re.fullmatch(r'[A-Za-z]+|[0-9]{3}', pcmd):      # (ordinary commands only: what a component makes of others is not stated)
             if NUMERIC_CMD.match(pcmd):
                 want_ev = ('numeric', repr((ptuple, int(pcmd)) + tuple(pargs)))
             else:
